@@ -12,6 +12,9 @@ def fault_cases():
     """(kind, position) -> description of files + argv (relative names)"""
     kinds = {
         "missing-file": lambda: ({}, ["-m", "Root", "nope.json"]),
+        "missing-file-yaml": lambda: ({}, ["-i", "yaml", "-m", "Root", "nope.yaml"]),
+        "missing-file-ini": lambda: ({}, ["-i", "ini", "-m", "Root", "nope.ini"]),
+        "directory-as-file-ini": lambda: ({"dir.ini/x": "1"}, ["-i", "ini", "-m", "Root", "dir.ini"]),
         "malformed-json": lambda: ({"bad.json": '{"a": 1,,}'}, ["-m", "Root", "bad.json"]),
         "empty-file": lambda: ({"bad.json": ""}, ["-m", "Root", "bad.json"]),
         "malformed-yaml": lambda: ({"bad.yaml": "a: [1, 2\nb: }"}, ["-i", "yaml", "-m", "Root", "bad.yaml"]),
@@ -42,6 +45,8 @@ def fault_cases():
         "generator-exception-converters": lambda: ({"g.json": '[{"a": {"b": 1}, "-": 2}]'}, ["-m", "Root", "g.json", "-f", "attrs", "--strings-converters"]),
         "bad-max-literals": lambda: ({"g.json": json.dumps(GOOD)}, ["-m", "Root", "g.json", "--max-strings-literals", "many"]),
         "unencodable-argv": lambda: ({"g.json": json.dumps(GOOD)}, ["-m", "Root", "g.json", "--preamble", "x = '\udcff'"]),
+        # the un-encodable text reaches ONLY the header (argv is echoed there), not the module body
+        "unencodable-argv-header-only": lambda: ({"g.json": json.dumps(GOOD)}, ["-m", "Root", "g.json", "--dkf", "caf\udcff"]),
         "unencodable-json-string": lambda: ({"g.json": '[{"a": "\\ud800x"}]'}, ["-m", "Root", "g.json"]),
         "model-arg-arity": lambda: ({"g.json": json.dumps(GOOD)}, ["-m", "Root"]),
     }
